@@ -165,11 +165,13 @@ theorem parseDurLoop_group (fuel k d : Nat) (u : UInt8) (unit : Nat) (rest : Byt
   have hov : ¬ (k > 9223372036854775808 / unit) := by
     rcases hu with ⟨_, h'⟩ | ⟨_, h'⟩ | ⟨_, h'⟩ <;> subst h' <;> omega
   have hov2 : ¬ (d + k * unit > 9223372036854775808) := by omega
+  have hov3 : ¬ (k * unit > 9223372036854775808) := by omega
+  have hlf : leadingFraction [] 0 0 = (0, 0) := rfl
   have hs : natDigits k ++ u :: rest = c :: (r ++ u :: rest) := by rw [hcr]; rfl
   conv => lhs; unfold parseDurLoop
   rw [hs] at hlead hlen ⊢
   simp only [hfirst, Bool.not_true, Bool.false_eq_true, if_false, hlead, splitFrac_nodot u rest hu46, hlen,
-    Bool.false_and, htw.1, htw.2, hunit, hov, hov2, List.isEmpty_cons, List.any_nil]
+    Bool.false_and, htw.1, htw.2, hunit, hov, hov2, hov3, hlf, List.isEmpty_cons, Nat.lt_irrefl]
 
 theorem groupTail_digits (k : Nat) (rest : Bytes) : GroupTail (natDigits k ++ rest) := by
   obtain ⟨c, r, h, hc⟩ := natDigits_head k
@@ -198,8 +200,8 @@ theorem durationString_seconds (n : Int) (hn : n ≠ 0) :
   simp only [hu, h0, h1, if_false, hm, hd, hf, List.isEmpty_nil, if_true, List.append_nil, hneg]
 
 theorem parse_hmsText (N : Nat) (h1 : 1 ≤ N) (hN : N ≤ 9223372036) (fuel : Nat) (hf : (hmsText N).length + 1 ≤ fuel) :
-    parseDurLoop fuel (hmsText N) 0 = some (some (N * 1000000000)) := by
-  have hfin : ∀ f d, parseDurLoop (f + 1) [] d = some (some d) := fun f d => by unfold parseDurLoop; rfl
+    parseDurLoop fuel (hmsText N) 0 = some (N * 1000000000) := by
+  have hfin : ∀ f d, parseDurLoop (f + 1) [] d = some d := fun f d => by unfold parseDurLoop; rfl
   have hlen : ∀ k, 1 ≤ (natDigits k).length := fun k => List.length_pos_iff.mpr (natDigits_ne_nil k)
   unfold hmsText at hf ⊢
   simp only at hf ⊢
@@ -215,7 +217,7 @@ theorem parse_hmsText (N : Nat) (h1 : 1 ≤ N) (hN : N ≤ 9223372036) (fuel : N
       rw [e, parseDurLoop_group (f + 3) _ 0 104 3600000000000 _ (Or.inl ⟨rfl, rfl⟩) (by omega) (by omega) (groupTail_digits _ _),
         parseDurLoop_group (f + 2) _ _ 109 60000000000 _ (Or.inr (Or.inl ⟨rfl, rfl⟩)) (by omega) (by omega) (groupTail_digits _ _),
         parseDurLoop_group (f + 1) _ _ 115 1000000000 _ (Or.inr (Or.inr ⟨rfl, rfl⟩)) (by omega) (by omega) (Or.inl rfl), hfin]
-      congr 2; omega
+      congr 1; omega
     · simp only [hh, if_false, List.nil_append] at hf ⊢
       have l2 := hlen (N / 60 % 60); have l3 := hlen (N % 60)
       simp only [List.length_append, List.length_cons, List.length_nil] at hf
@@ -224,14 +226,14 @@ theorem parse_hmsText (N : Nat) (h1 : 1 ≤ N) (hN : N ≤ 9223372036) (fuel : N
           = natDigits (N / 60 % 60) ++ 109 :: (natDigits (N % 60) ++ 115 :: []) := by simp
       rw [e, parseDurLoop_group (f + 2) _ _ 109 60000000000 _ (Or.inr (Or.inl ⟨rfl, rfl⟩)) (by omega) (by omega) (groupTail_digits _ _),
         parseDurLoop_group (f + 1) _ _ 115 1000000000 _ (Or.inr (Or.inr ⟨rfl, rfl⟩)) (by omega) (by omega) (Or.inl rfl), hfin]
-      congr 2; omega
+      congr 1; omega
   · simp only [hm, if_false] at hf ⊢
     have l3 := hlen (N % 60)
     simp only [List.length_append, List.length_cons, List.length_nil] at hf
     obtain ⟨f, rfl⟩ : ∃ f, fuel = f + 2 := ⟨fuel - 2, by omega⟩
     have e : natDigits (N % 60) ++ [115] = natDigits (N % 60) ++ 115 :: [] := rfl
     rw [e, parseDurLoop_group (f + 1) _ _ 115 1000000000 _ (Or.inr (Or.inr ⟨rfl, rfl⟩)) (by omega) (by omega) (Or.inl rfl), hfin]
-    congr 2; omega
+    congr 1; omega
 
 theorem hmsText_shape (N : Nat) : ∃ c r, hmsText N = c :: r ∧ isDigitB c = true ∧ 2 ≤ (hmsText N).length := by
   unfold hmsText
